@@ -750,6 +750,21 @@ def stepLine (s : Sys) (toks : List String) : Sys × List String :=
     | some i, some e, some m => s.step (.kpost i (.err e) m)
     | _, _, _ => (s, ["bad-op"])
   | ["fds", "rpoll"] => s.step .rpoll
+  | ["fds", "rpollfail", e] =>
+    -- `Ring::poll` whose `io_uring_enter` fails with errno `e` (not ETIME/EINTR, which are not
+    -- errors): the kernel took nothing, `poll` returns the error, nothing else happens
+    match parseNat e with
+    | some e =>
+      if 1 ≤ e ∧ e < 4096 ∧ e ≠ 4 ∧ e ≠ 62 then (s, [s!"enter submit={s.sq.length}", s!"error {e}"])
+      else (s, ["bad-op"])
+    | none => (s, ["bad-op"])
+  | ["fds", "dropfail", a, e] =>
+    -- an `AsyncFd` dropped while `io_uring_enter` would fail: dropping never enters the kernel
+    -- (the CLOSE is queued, or the descriptor is closed synchronously when the queue is full)
+    match parseNat a, parseNat e with
+    | some a, some e =>
+      if 1 ≤ e ∧ e < 4096 ∧ e ≠ 4 ∧ e ≠ 62 then s.step (.dropH a) else (s, ["bad-op"])
+    | _, _ => (s, ["bad-op"])
   | ["fds", "end"] => s.finish
   | _ => (s, ["bad-op"])
 
